@@ -252,7 +252,8 @@ PROPS["C01"] = {'claimed': True,
          'scripted applications, stable two-master rings over many token visits with small HSA (complete GAP sweeps, late successor inside the GAP, '
          'GAP replies ready / in-ring / not-ready / slave / wrong source / wrong destination / status != Ok), rings of 3..4 known stations whose '
          'successor vanishes and returns, re-claims after the other masters died (GAP cursor mid-sweep / waiting), short TTR with applications that never decline / whose '
-         'requests time out after another application declined, PHY busy longer than the predicted transmission with successors answering late; every case runs '
+         'requests time out after another application declined, PHY busy longer than the predicted transmission with successors answering late, replies that break off after their first bytes, masters that die in the middle of '
+         'a token telegram; every case runs '
          'under a wall-clock watchdog (TIMEOUT); non-trivial = polls that transmit, accept a token, deliver a reply / time-out or run a GAP branch',
  'trusted_base': ['hand model coq/Model/Fdl.v of src/fdl/active.rs (all of it: states, legality assertions, poll_inner branch for branch), on top of '
                   "Telegram.v / Phy.v / TokenRing.v / Params.v; tied by differential execution poll by poll on this run's histories (all outputs, "
@@ -293,7 +294,8 @@ PROPS["C05"] = {'claimed': True,
          'scripted applications, stable two-master rings over many token visits with small HSA (complete GAP sweeps, late successor inside the GAP, '
          'GAP replies ready / in-ring / not-ready / slave / wrong source / wrong destination / status != Ok), rings of 3..4 known stations whose '
          'successor vanishes and returns, re-claims after the other masters died (GAP cursor mid-sweep / waiting), short TTR with applications that never decline / whose '
-         'requests time out after another application declined, PHY busy longer than the predicted transmission with successors answering late; every case runs '
+         'requests time out after another application declined, PHY busy longer than the predicted transmission with successors answering late, replies that break off after their first bytes, masters that die in the middle of '
+         'a token telegram; every case runs '
          'under a wall-clock watchdog (TIMEOUT); non-trivial = polls that transmit, accept a token, deliver a reply / time-out or run a GAP branch',
  'trusted_base': ['hand model coq/Model/Fdl.v of src/fdl/active.rs (all of it: states, legality assertions, poll_inner branch for branch), on top of '
                   "Telegram.v / Phy.v / TokenRing.v / Params.v; tied by differential execution poll by poll on this run's histories (all outputs, "
@@ -333,7 +335,8 @@ PROPS["C06"] = {'claimed': True,
          'scripted applications, stable two-master rings over many token visits with small HSA (complete GAP sweeps, late successor inside the GAP, '
          'GAP replies ready / in-ring / not-ready / slave / wrong source / wrong destination / status != Ok), rings of 3..4 known stations whose '
          'successor vanishes and returns, re-claims after the other masters died (GAP cursor mid-sweep / waiting), short TTR with applications that never decline / whose '
-         'requests time out after another application declined, PHY busy longer than the predicted transmission with successors answering late; every case runs '
+         'requests time out after another application declined, PHY busy longer than the predicted transmission with successors answering late, replies that break off after their first bytes, masters that die in the middle of '
+         'a token telegram; every case runs '
          'under a wall-clock watchdog (TIMEOUT); non-trivial = polls that transmit, accept a token, deliver a reply / time-out or run a GAP branch',
  'trusted_base': ['hand model coq/Model/Fdl.v of src/fdl/active.rs (all of it: states, legality assertions, poll_inner branch for branch), on top of '
                   "Telegram.v / Phy.v / TokenRing.v / Params.v; tied by differential execution poll by poll on this run's histories (all outputs, "
@@ -360,7 +363,8 @@ PROPS["C11"] = {'claimed': True,
          'scripted applications, stable two-master rings over many token visits with small HSA (complete GAP sweeps, late successor inside the GAP, '
          'GAP replies ready / in-ring / not-ready / slave / wrong source / wrong destination / status != Ok), rings of 3..4 known stations whose '
          'successor vanishes and returns, re-claims after the other masters died (GAP cursor mid-sweep / waiting), short TTR with applications that never decline / whose '
-         'requests time out after another application declined, PHY busy longer than the predicted transmission with successors answering late; every case runs '
+         'requests time out after another application declined, PHY busy longer than the predicted transmission with successors answering late, replies that break off after their first bytes, masters that die in the middle of '
+         'a token telegram; every case runs '
          'under a wall-clock watchdog (TIMEOUT); non-trivial = polls that transmit, accept a token, deliver a reply / time-out or run a GAP branch',
  'trusted_base': ['hand model coq/Model/Fdl.v of src/fdl/active.rs (all of it: states, legality assertions, poll_inner branch for branch), on top of '
                   "Telegram.v / Phy.v / TokenRing.v / Params.v; tied by differential execution poll by poll on this run's histories (all outputs, "
@@ -387,7 +391,8 @@ PROPS["C12"] = {'claimed': True,
          'scripted applications, stable two-master rings over many token visits with small HSA (complete GAP sweeps, late successor inside the GAP, '
          'GAP replies ready / in-ring / not-ready / slave / wrong source / wrong destination / status != Ok), rings of 3..4 known stations whose '
          'successor vanishes and returns, re-claims after the other masters died (GAP cursor mid-sweep / waiting), short TTR with applications that never decline / whose '
-         'requests time out after another application declined, PHY busy longer than the predicted transmission with successors answering late; every case runs '
+         'requests time out after another application declined, PHY busy longer than the predicted transmission with successors answering late, replies that break off after their first bytes, masters that die in the middle of '
+         'a token telegram; every case runs '
          'under a wall-clock watchdog (TIMEOUT); non-trivial = polls that transmit, accept a token, deliver a reply / time-out or run a GAP branch',
  'trusted_base': ['hand model coq/Model/Fdl.v of src/fdl/active.rs (all of it: states, legality assertions, poll_inner branch for branch), on top of '
                   "Telegram.v / Phy.v / TokenRing.v / Params.v; tied by differential execution poll by poll on this run's histories (all outputs, "
@@ -453,7 +458,8 @@ PROPS["C13"] = {'claimed': False,
          'scripted applications, stable two-master rings over many token visits with small HSA (complete GAP sweeps, late successor inside the GAP, '
          'GAP replies ready / in-ring / not-ready / slave / wrong source / wrong destination / status != Ok), rings of 3..4 known stations whose '
          'successor vanishes and returns, re-claims after the other masters died (GAP cursor mid-sweep / waiting), short TTR with applications that never decline / whose '
-         'requests time out after another application declined, PHY busy longer than the predicted transmission with successors answering late; every case runs '
+         'requests time out after another application declined, PHY busy longer than the predicted transmission with successors answering late, replies that break off after their first bytes, masters that die in the middle of '
+         'a token telegram; every case runs '
          'under a wall-clock watchdog (TIMEOUT); non-trivial = polls that transmit, accept a token, deliver a reply / time-out or run a GAP branch',
  'trusted_base': ['hand model coq/Model/Fdl.v of src/fdl/active.rs (all of it: states, legality assertions, poll_inner branch for branch), on top of '
                   "Telegram.v / Phy.v / TokenRing.v / Params.v; tied by differential execution poll by poll on this run's histories (all outputs, "
@@ -485,7 +491,8 @@ PROPS["C15"] = {'claimed': False,
          'scripted applications, stable two-master rings over many token visits with small HSA (complete GAP sweeps, late successor inside the GAP, '
          'GAP replies ready / in-ring / not-ready / slave / wrong source / wrong destination / status != Ok), rings of 3..4 known stations whose '
          'successor vanishes and returns, re-claims after the other masters died (GAP cursor mid-sweep / waiting), short TTR with applications that never decline / whose '
-         'requests time out after another application declined, PHY busy longer than the predicted transmission with successors answering late; every case runs '
+         'requests time out after another application declined, PHY busy longer than the predicted transmission with successors answering late, replies that break off after their first bytes, masters that die in the middle of '
+         'a token telegram; every case runs '
          'under a wall-clock watchdog (TIMEOUT); non-trivial = polls that transmit, accept a token, deliver a reply / time-out or run a GAP branch',
  'trusted_base': ['hand model coq/Model/Fdl.v of src/fdl/active.rs (all of it: states, legality assertions, poll_inner branch for branch), on top of '
                   "Telegram.v / Phy.v / TokenRing.v / Params.v; tied by differential execution poll by poll on this run's histories (all outputs, "
@@ -845,7 +852,8 @@ PROPS["C13"] = {'claimed': True,
          'scripted applications, stable two-master rings over many token visits with small HSA (complete GAP sweeps, late successor inside the GAP, '
          'GAP replies ready / in-ring / not-ready / slave / wrong source / wrong destination / status != Ok), rings of 3..4 known stations whose '
          'successor vanishes and returns, re-claims after the other masters died (GAP cursor mid-sweep / waiting), short TTR with applications that never decline / whose '
-         'requests time out after another application declined, PHY busy longer than the predicted transmission with successors answering late; every case runs '
+         'requests time out after another application declined, PHY busy longer than the predicted transmission with successors answering late, replies that break off after their first bytes, masters that die in the middle of '
+         'a token telegram; every case runs '
          'under a wall-clock watchdog (TIMEOUT); non-trivial = polls that transmit, accept a token, '
          'deliver a reply / time-out or run a GAP branch',
  'trusted_base': ['hand model coq/Model/Fdl.v of src/fdl/active.rs (all of it: states, legality assertions, poll_inner branch for branch), on top of '
@@ -899,7 +907,8 @@ PROPS["C15"] = {'claimed': True,
          'scripted applications, stable two-master rings over many token visits with small HSA (complete GAP sweeps, late successor inside the GAP, '
          'GAP replies ready / in-ring / not-ready / slave / wrong source / wrong destination / status != Ok), rings of 3..4 known stations whose '
          'successor vanishes and returns, re-claims after the other masters died (GAP cursor mid-sweep / waiting), short TTR with applications that never decline / whose '
-         'requests time out after another application declined, PHY busy longer than the predicted transmission with successors answering late; every case runs '
+         'requests time out after another application declined, PHY busy longer than the predicted transmission with successors answering late, replies that break off after their first bytes, masters that die in the middle of '
+         'a token telegram; every case runs '
          'under a wall-clock watchdog (TIMEOUT); non-trivial = polls that transmit, accept a token, '
          'deliver a reply / time-out or run a GAP branch',
  'trusted_base': ['hand model coq/Model/Fdl.v of src/fdl/active.rs (all of it: states, legality assertions, poll_inner branch for branch), on top of '
